@@ -154,7 +154,7 @@ func checkC08(c c08Case) *core.Failure {
 func TestC08(t *testing.T) {
 	r := core.Start(t, "C08")
 	defer r.Finish()
-	r.Rule = "(a) exhaustive: synthetic extensions over OIDs {A,B} (thorough also {A,B,C} with profile and certificate lists up to length 3); profile lists up to length 2 (quick) / 3 (thorough) over entry x optional x override (24 values per entry, content-less entries included), certificate lists up to length 3 / 4 over 4 values, every pair fed to config.Merge and compared with the documented rules, with deep snapshots of both inputs (including the spare capacity of the certificate's slice) before and after. (b) random: real extension kinds end to end through YAML with related profiles (see C06), including the must-fail case of a remaining content-less entry. Non-trivial = repeated OID on either side, or optional and override on one entry, or a content-less entry; distinct by the pair."
+	r.Rule = "(a) exhaustive: synthetic extensions over OIDs {A,B} (thorough also {A,B,C} with profile and certificate lists up to length 3); profile lists up to length 2 (quick) / 3 (thorough) over entry x optional x override (24 values per entry, content-less entries included), certificate lists up to length 3 / 4 over 4 values, every pair fed to config.Merge and compared with the documented rules, with deep snapshots of both inputs (including the spare capacity of the certificate's slice) before and after. (a2) random synthetic lists of 50-90 certificate and up to 80 profile entries. (b) random: real extension kinds end to end through YAML with related profiles (see C06), including the must-fail case of a remaining content-less entry. Non-trivial = repeated OID on either side, or optional and override on one entry, or a content-less entry; distinct by the pair."
 	r.Assumptions = []string{"'differs' is decided on configuration values; the end-to-end generator avoids pairs that are equal in encoding but not in text"}
 	wrap := func(c c08Case) *core.Failure {
 		nt := false
@@ -276,6 +276,20 @@ func TestC08(t *testing.T) {
 		enumerate([]string{"A", "B", "C"}, 3, 3)
 	}
 	r.Extra["exhaustive_part"] = "config.Merge on synthetic extensions within the stated bounds; the end-to-end part is sampled"
+	// long synthetic lists (bookkeeping that is sized for "a few" extensions must not break beyond that)
+	core.Rapid(r, "merge", r.Pick(300, 20000), func(t *rapid.T) c08Case {
+		var c c08Case
+		n := rapid.IntRange(50, 90).Draw(t, "ncert")
+		for i := 0; i < n; i++ {
+			c.Cert = append(c.Cert, synExt{rapid.SampledFrom([]string{"A", "B", "C"}).Draw(t, fmt.Sprintf("co%d", i)), rapid.SampledFrom([]string{"x", "y", "z"}).Draw(t, fmt.Sprintf("cp%d", i))})
+		}
+		m := rapid.IntRange(1, 80).Draw(t, "nprof")
+		for i := 0; i < m; i++ {
+			c.Prof = append(c.Prof, synProf{synExt{rapid.SampledFrom([]string{"A", "B", "C"}).Draw(t, fmt.Sprintf("po%d", i)), rapid.SampledFrom([]string{"x", "y", ""}).Draw(t, fmt.Sprintf("pp%d", i))},
+				rapid.Bool().Draw(t, fmt.Sprintf("popt%d", i)), rapid.Bool().Draw(t, fmt.Sprintf("povr%d", i))})
+		}
+		return c
+	}, wrap)
 	gen := func(t *rapid.T) extCase {
 		c := genExtCase(t, core.AllKinds, 6, 64, true)
 		return c
